@@ -4,6 +4,7 @@
 //!   smtverif replay <path> [--quiet]             re-execute one recorded case, no explorer involved
 //!   smtverif --worker <PROPERTY> <tier> <seed> <lo> <hi>     (internal) run batches lo..hi
 
+mod autos;
 mod csets;
 mod infra;
 mod pool;
@@ -16,6 +17,12 @@ mod universe;
 use infra::*;
 
 fn engine_for(prop: &str) -> Option<Box<dyn Engine>> {
+    match prop {
+        "C04" => return Some(Box::new(Composite { parts: vec![Box::new(autos::DfaEngine { kind: autos::DKind::C04 }), Box::new(regex::RegexEngine { kind: regex::Kind::C04 })] })),
+        "C14" => return Some(Box::new(Composite { parts: vec![Box::new(autos::DfaEngine { kind: autos::DKind::C14 }), Box::new(regex::RegexEngine { kind: regex::Kind::C14 })] })),
+        "C13" => return Some(Box::new(Composite { parts: vec![Box::new(autos::BldEngine), Box::new(autos::DfaEngine { kind: autos::DKind::C13 })] })),
+        _ => {}
+    }
     if let Some(k) = regex::Kind::from_id(prop) {
         return Some(Box::new(regex::RegexEngine { kind: k }));
     }
